@@ -38,6 +38,10 @@ def check(ck):
     r15_7(ck)
     r15_9(ck)
     r15_10(ck)
+    from . import helpers as H
+    ck.rule('R15.11', 'deep_merge and hierarchy_depth, with which declarations and initial states are combined, keep their recursion skeleton')
+    H.deep_merge_shape(ck, 'R15.11')
+    H.hierarchy_depth_shape(ck, 'R15.11')
 
 
 def r15_1(ck):
